@@ -294,6 +294,30 @@ def r2(ck, prog, run):
                 bad.append(("shape", repr(res)[:80]))
             ck.same("R2", f0.where, f"f0(times), entry indices {idxs}", "element k is the derivative of its own entry's polynomial at its own dt", not bad,
                     found=str(bad[:2]), nontrivial=True)
+    # ---- phasepol: the recentred polynomial plus the returned reference phase reproduce the prediction around t0
+    pp = prog.func("PhasePredictor.phasepol")
+    run.touched(pp)
+    for e in (0, 2):
+        tsc = Num(sp.Symbol("t", real=True) / Hz, kind="time", shape=())
+        r = ck.attempt("R2", pp.where, f"phasepol(t0) for t0 in entry {e}", "evaluates", lambda: eval_with_index(prog, pp, pred, tsc, Num(e), Num(d)))
+        if r is None:
+            continue
+        res, log, ev = r
+        fa = [ev_[1] for ev_ in log.events if ev_[0] == "from_angles"]
+        okshape = isinstance(res, TupleV) and len(res.items) == 2 and isinstance(res.items[0], PolyV) and len(fa) == 1 and isinstance(fa[0]["phase1"], Num)
+        if not okshape:
+            ck.unk("R2", pp.where, f"phasepol(t0), entry {e}", "returns (polynomial, Phase built from one number)", repr(res)[:160])
+            continue
+        P = res.items[0]
+        ref = sp.simplify(fa[0]["phase1"].expr / (2 * sp.pi))
+        if fa[0]["phase2"] is not NONE and isinstance(fa[0]["phase2"], Num):
+            ref = ref + sp.simplify(fa[0]["phase2"].expr / (2 * sp.pi))
+        ck.eq("R2", pp.where, f"phasepol(t0), entry {e}: polynomial(x) + reference phase",
+              "== rphase_e + poly_e(x + dt): the recentred polynomial reproduces the prediction at t0 + x for every x", P.expr(x) + ref, rph[e] + polys[e].expr(x + d))
+        ck.same("R2", pp.where, f"phasepol(t0), entry {e}: form of the result", "a power series in x = t - t0 (converted: domain and window are the default) "
+                "whose constant term lies in [0, 1)", tuple(P.domain) == (-1, 1) and tuple(P.window) == (-1, 1)
+                and sp.simplify(P.coeffs[0] - (polys[e].expr(d) - sp.floor(polys[e].expr(d)))) == 0,
+                found=f"domain {P.domain}, constant term {P.coeffs[0]}", nontrivial=True)
     # time_at: func and fprime use the same argument; the root of (prediction - phase) is sought
     inner = {s_.name: s_ for s_ in ta.node.body if isinstance(s_, ast.FunctionDef)}
     if {"func", "fprime"} <= set(inner):
